@@ -20,7 +20,8 @@ STAR_EVENT = ['*', 'a-bystander-sid', 'x']      # an event named like the wildca
 COMBOS = [(None, None, 0, 0), (None, ['ev', 1], 0, 0), ('sym', ['ev', 1], 0, 0), ('big', ['ev'], 0, 0), ('sym', [7], 0, 0),
           (None, 'str', 0, 0), (None, {'a': 1}, 0, 0), ('sym', [], 0, 0), (None, ['ev', PH0], 1, 1),
           ('sym', BAD_INDEX, 1, 1), (None, ['ev', PH0], 2, 1), (None, ['connect'], 0, 0),
-          (None, ['disconnect', 'x'], 0, 0), (None, [['ev']], 0, 0), ('sym', PH0, 1, 2), (None, STAR_EVENT, 0, 0)]
+          (None, ['disconnect', 'x'], 0, 0), (None, [['ev']], 0, 0), ('sym', PH0, 1, 2), (None, STAR_EVENT, 0, 0),
+          (None, ['ev', PH0], 3000000, 0), ('sym', ['ev', PH0], 3000000, 1)]
 SMALL_COMBOS = [COMBOS[i] for i in (2, 4, 8, 10)]
 MALFORMED = ['x', '2', '9', '51-', '2/a', '3', '0/zz,', '4"no"', '2[', '-1', '61-/a,3']
 
@@ -140,6 +141,10 @@ def h_flow(t, part):
         if during['served'] != during['n']:
             return Fail('hostile:bystander-not-served-during-offenders-handler', 'a bystander event that arrived while a handler '
                         'was running for the offender was not dispatched; handlers ran %r' % (calls[ncalls:],))
+        held = w.s._binary_packet.get('e0')
+        if kind == 0 and held is not None and len(held.attachments) > extra:
+            return Fail('hostile:resources-in-proportion-to-declared-count', 'a header declaring %d attachments, %d binary frames '
+                        'received: the server holds a list of %d attachment slots' % (count, extra, len(held.attachments)))
         new_calls = [c for c in calls[ncalls:] if c != ('ev', b1, ('during',))]
         own = ({w.sid('e0', n) for n in ('/', '/a')} - {None}) | own_before      # the offender's sessions before or after
         bad = [c for c in new_calls if c[1] not in own]
